@@ -138,6 +138,9 @@ def rules(ctx: Ctx) -> None:
     rets = [r for r in prog.walk_fn(N) if isinstance(r, ast.Return) and r.value is not None]
     lower_default = [r for r in rets if isinstance(r.value, ast.Call) and isinstance(r.value.func, ast.Attribute) and r.value.func.attr == "lower" and u(r.value.func.value) == pname]
     if not lower_default:
+        ctx.ob("R16.3", "normaliser:unquoted-names-are-lower-cased", False, N.loc(),
+               f"no path of the normaliser returns `{pname}.lower()`: an unquoted name must be folded with str.lower (what every other place that compares names "
+               "case-insensitively uses); returns are " + ", ".join(f"`{u(r.value)[:40]}`" for r in rets[:4]))
         raise AnalysisError("normaliser: no `return name.lower()` default branch found; refusing to judge an unknown shape")
     quote_consts = None
     # the quote characters: a literal collection of strings the normaliser iterates over (directly, through a local or a named constant)
